@@ -54,7 +54,8 @@ def draw(case, path, rng):
         speed = float(rng.uniform(0.6, 1.2))
         cfl = 0.1
     U = dirn * speed
-    c0 = 0.5 - U * T / 2 + rng.uniform(-0.04, 0.04, size=d)
+    ext = np.array([1.0, 0.75, 1.0][:d])  # extents along x, y(, z): grids are (3n/4, n) and (n, 3n/4, n)
+    c0 = 0.5 * ext - U * T / 2 + rng.uniform(-0.04, 0.04, size=d)
     p = {"case": case, "path": path, "dim": d, "nu": nu, "t0": t0, "T": T, "U": U.tolist(), "c0": c0.tolist(), "cfl": cfl}
     rc = np.sqrt(4 * nu * t0)
     if case == "lamb_oseen":
@@ -83,9 +84,13 @@ def simulate(p, n, dtype):
     d = p["dim"]
     real_t = util.DT[dtype]
     nu, t0, T, U, c0 = p["nu"], p["t0"], p["T"], np.array(p["U"]), np.array(p["c0"])
-    shape = (n,) * d
+    # grids are NON-square / NON-cubic, (3n/4, n) and (n, 3n/4, n): the y extent is 3/4 of the x (and z) extent, so the simulator's
+    # own coordinate field, on which the exact solution is evaluated, must get every axis extent from the right grid size
+    shape = ((3 * n) // 4, n) if d == 2 else (n, (3 * n) // 4, n)
     if p["case"] == "lamb_oseen":
-        sim = sims.build(dict(kind="ns2d", shape=shape, x_range=1.0, nu=nu, dtype=dtype, threads=1, free_stream=True, time=t0, cfl=p["cfl"]))
+        # path A through the documented factory function, path B through the class
+        sim = sims.build(dict(kind="ns2d", shape=shape, x_range=1.0, nu=nu, dtype=dtype, threads=1, free_stream=True, time=t0, cfl=p["cfl"],
+                              via_factory=(p["path"] == "A")))
     else:
         sim = sims.build(dict(kind="passive", shape=shape, x_range=1.0, nu=nu, dtype=dtype, threads=1, time=t0, cfl=p["cfl"],
                               field_type="vector" if p["case"].endswith("vector") else "scalar"))
@@ -154,7 +159,7 @@ def simulate(p, n, dtype):
         # velocity recovered through the unbounded Poisson solve vs the analytic swirl + free stream, on the central half box
         c = c0 + U * (float(sim.time) - t0)
         uex = _lo_velocity(pos, c, nu, p["gamma"], float(sim.time))
-        box = (slice(n // 4, 3 * n // 4),) * 2
+        box = (slice(shape[0] // 4, 3 * shape[0] // 4), slice(n // 4, 3 * n // 4))
         du = np.asarray(sim.velocity_field, np.float64) - U.reshape(2, 1, 1) - uex
         verr = float(np.linalg.norm(du[(slice(None),) + box]) / np.linalg.norm(uex[(slice(None),) + box]))
     return {"verr_end": verr, "err_end": e_end, "err_max": float(np.nanmax(trace)) if np.all(np.isfinite(trace)) else float("inf"), "steps": steps,
